@@ -1,0 +1,60 @@
+// Verification hook (only with `--cfg tokio_rs_bytes_verif`): read-only view of
+// the hidden representation of a `Bytes` handle.
+use super::*;
+use crate::verif::*;
+
+impl Bytes {
+    #[doc(hidden)]
+    pub fn verif_repr(&self) -> Repr {
+        let data = self.data.load(Ordering::Relaxed) as usize;
+        let mut r = Repr {
+            kind: B_UNKNOWN,
+            data,
+            ptr: self.ptr as usize,
+            len: self.len,
+            cap: self.len,
+            ..Repr::default()
+        };
+        let vt = self.vtable as *const Vtable;
+        let clone_fn = self.vtable.clone as *const () as usize;
+        unsafe {
+            if vt == &PROMOTABLE_EVEN_VTABLE as *const Vtable
+                || vt == &PROMOTABLE_ODD_VTABLE as *const Vtable
+            {
+                r.kind = if vt == &PROMOTABLE_EVEN_VTABLE as *const Vtable {
+                    B_PROMOTABLE_EVEN
+                } else {
+                    B_PROMOTABLE_ODD
+                };
+                if data & KIND_MASK == KIND_ARC {
+                    r.promoted = true;
+                    fill_shared(&mut r, data as *const Shared);
+                } else {
+                    r.buf = data & !KIND_MASK;
+                }
+            } else if vt == &SHARED_VTABLE as *const Vtable {
+                r.kind = B_SHARED;
+                fill_shared(&mut r, data as *const Shared);
+            } else if vt == &OWNED_VTABLE as *const Vtable {
+                r.kind = B_OWNED;
+                r.ctrl = data;
+                r.ref_cnt = (*(data as *const OwnedLifetime))
+                    .ref_cnt
+                    .load(Ordering::Relaxed);
+            } else if crate::bytes_mut::verif_hook::is_shared_vtable(self.vtable) {
+                r.kind = B_SHARED_MUT;
+                crate::bytes_mut::verif_hook::fill_shared(&mut r, data);
+            } else if clone_fn == static_clone as *const () as usize {
+                r.kind = B_STATIC;
+            }
+        }
+        r
+    }
+}
+
+unsafe fn fill_shared(r: &mut Repr, shared: *const Shared) {
+    r.ctrl = shared as usize;
+    r.ref_cnt = (*shared).ref_cnt.load(Ordering::Relaxed);
+    r.buf = (*shared).buf as usize;
+    r.buf_cap = (*shared).cap;
+}
